@@ -1,6 +1,7 @@
 package main
 
 import (
+	"strconv"
 	"fmt"
 	"go/ast"
 	"go/constant"
@@ -108,7 +109,9 @@ func (fv *FuncVC) eval(e ast.Expr, st *State) Val {
 		fv.addFact(st, ok)
 		return v
 	case *ast.FuncLit:
-		fv.note("function literal outside a supported higher-order call")
+		if !fv.inlinedClosure(x) {
+			fv.note("function literal outside a supported higher-order call")
+		}
 		return fv.havocVal(st, "closure", fv.typeOf(e))
 	case *ast.KeyValueExpr:
 		return fv.eval(x.Value, st)
@@ -305,7 +308,12 @@ func (fv *FuncVC) evalBinary(x *ast.BinaryExpr, st *State) Val {
 			return Val{sx("/", a.T, b.T), a.S, t}
 		}
 	case token.AND, token.OR, token.XOR, token.SHL, token.SHR, token.AND_NOT:
-		// bit operations: uninterpreted (not needed by the claimed properties)
+		// x & 2^k is exact (bit k of the two's complement representation); other bit operations are uninterpreted
+		if x.Op == token.AND {
+			if t, ok := bitTest(a.T, b.T); ok {
+				return Val{t, SInt, fv.info.TypeOf(x)}
+			}
+		}
 		f := fv.th.declFun("bitop$"+sanitize(x.Op.String()), []Sort{SInt, SInt}, SInt)
 		return Val{sx(f, a.T, b.T), SInt, t}
 	}
@@ -845,4 +853,59 @@ func (fv *FuncVC) globalInit(o *types.Var) ast.Expr {
 		}
 	}
 	return nil
+}
+
+// bitTest: x & m for a literal power of two m, as integer arithmetic.
+func bitTest(a, b string) (string, bool) {
+	isPow2 := func(s string) bool {
+		n, err := strconv.ParseInt(s, 10, 64)
+		return err == nil && n > 0 && n&(n-1) == 0
+	}
+	switch {
+	case isPow2(b):
+	case isPow2(a):
+		a, b = b, a
+	default:
+		return "", false
+	}
+	return fmt.Sprintf("(ite (= (mod (div %s %s) 2) 1) %s 0)", a, b, b), true
+}
+
+// inlinedClosure: the literal is bound once to a local variable that is only ever called, and its body is
+// straight-line; calls of it are then inlined (see evalCall) and the closure value itself is never needed.
+func (fv *FuncVC) inlinedClosure(fl *ast.FuncLit) bool {
+	if !straightLine(fl.Body.List) {
+		return false
+	}
+	var obj types.Object
+	ast.Inspect(fv.fi.Decl.Body, func(m ast.Node) bool {
+		if as, ok := m.(*ast.AssignStmt); ok {
+			for i, r := range as.Rhs {
+				if r == ast.Expr(fl) && i < len(as.Lhs) {
+					if id, ok := as.Lhs[i].(*ast.Ident); ok {
+						obj = fv.info.ObjectOf(id)
+					}
+				}
+			}
+		}
+		return true
+	})
+	if obj == nil || fv.localClosure(obj) != fl {
+		return false
+	}
+	uses, calls := 0, 0
+	ast.Inspect(fv.fi.Decl.Body, func(m ast.Node) bool {
+		switch m := m.(type) {
+		case *ast.Ident:
+			if fv.info.Uses[m] == obj {
+				uses++
+			}
+		case *ast.CallExpr:
+			if id, ok := ast.Unparen(m.Fun).(*ast.Ident); ok && fv.info.Uses[id] == obj {
+				calls++
+			}
+		}
+		return true
+	})
+	return uses == calls
 }
